@@ -160,6 +160,20 @@ var factUnits = []FactUnit{
 		Loops:   true,
 	},
 	{
+		Name:    "GroupReportFacts",
+		File:    "service/clone_service.go",
+		Funcs:   []string{"DetectClonesInFiles", "filterDetectedPairs"},
+		Tracked: []string{"clonePairs", "cloneGroups", "clonePairs, _", "clonePairs, cloneGroups", "filtered", "domainClonePairs", "domainCloneGroups"},
+		Loops:   true,
+	},
+	{
+		Name:    "GroupDetectorFacts",
+		File:    "internal/analyzer/clone_detector.go",
+		Funcs:   []string{"GroupClonePairs", "configuredGroupingStrategy", "groupClonesWithStrategy"},
+		Tracked: []string{"thr", "k", "cd.cloneGroups"},
+		Loops:   true,
+	},
+	{
 		Name:    "CloneServiceFacts",
 		File:    "service/clone_service.go",
 		Funcs:   []string{"filterClonePairs", "createDetectorConfig", "convertCloneType"},
